@@ -5,6 +5,8 @@ import (
 	"fmt"
 	"strconv"
 	"strings"
+
+	"github.com/moov-io/iso8583/utils"
 )
 
 var Hex = Prefixers{
@@ -64,7 +66,8 @@ func (p *hexVarPrefixer) DecodeLength(maxLen int, data []byte) (int, int, error)
 
 	dataLen, err := strconv.ParseUint(string(data[:length]), 16, p.Digits*8)
 	if err != nil {
-		return 0, 0, err
+		// the strconv error quotes its input: up to 12 bytes of the message
+		return 0, 0, utils.NewSafeError(err, "length prefix is not a valid hex number")
 	}
 
 	if int(dataLen) > maxLen {
